@@ -34,6 +34,11 @@ TRUSTED = [
     "qutip.measurement.measurement_statistics is modelled as: outcome b has p = <s|P_b|s>, collapsed state P_b s/sqrt(p), "
     "dropped (None, 0.0) when p < atol; np.random.choice is modelled as an arbitrary oracle that never returns an outcome "
     "of probability 0 (patched from outside in the harness)",
+    "the model has no simulator-object state besides what initialize sets (every run starts from initialize): this is tied to "
+    "the code by histories of 2-4 calls (run_statistics / prescribed run / unconstrained run / density-matrix run, mixed order, "
+    "different states and registers) made on ONE CircuitSimulator object, each call compared with the model and the oracle as "
+    "for a fresh object; when the patched random choice is not consumed the harness decides from 16 real samples whether the "
+    "run samples the branches at all",
     "Python floats are modelled as exact field elements; the generated states/gates have Gaussian-rational amplitudes "
     "so that all probabilities are rationals far from the tolerance thresholds",
     "the model describes /repo with fixes/C02-copy-cbits.diff applied (`alias := false`); the shipped code is the "
@@ -207,7 +212,7 @@ def gen_malformed(rng):
 
 
 def key_of(inp):
-    return json.dumps({k: inp[k] for k in ("n", "ncb", "ops", "ket", "cbits", "mode", "mres", "orc", "dm_from_ket")}, sort_keys=True)
+    return json.dumps({k: inp.get(k) for k in ("n", "ncb", "ops", "ket", "cbits", "mode", "mres", "orc", "dm_from_ket")}, sort_keys=True)
 
 
 def nontrivial(inp):
@@ -275,16 +280,22 @@ class FakeChoice:
         return a[w]
 
 
-def run_real(inp):
-    """-> dict(rejected=True) or canonical observable output"""
+def call_real(inp, qc=None, shared=None):
+    """one call on the real code -> dict(rejected=True) or canonical observable output.
+    shared = {"sv": CircuitSimulator, "dm": CircuitSimulator}: re-use these simulator OBJECTS (history mode);
+    None: fresh objects through the public wrappers"""
     from qutip import ket2dm
     from qutip_qip.circuit import CircuitSimulator
     try:
-        qc, ket = build(inp)
+        qc0, ket = build(inp)
+        if qc is None:
+            qc = qc0
         cb = None if inp["cbits"] is None else list(inp["cbits"])
         mode = inp["mode"]
         if mode == "stats":
-            res = qc.run_statistics(ket, cbits=cb)
+            # (no random choice can occur here unless the code is wrong; keep it deterministic anyway)
+            with mock.patch("numpy.random.choice", FakeChoice([])):
+                res = qc.run_statistics(ket, cbits=cb) if shared is None else shared["sv"].run_statistics(ket, cbits=cb)
             states = res.get_final_states()
             probs = res.get_probabilities()
             cbs = res.get_cbits() if hasattr(res, "cbits") else [None] * len(states)
@@ -300,7 +311,7 @@ def run_real(inp):
                                 for s, p, c, l in zip(states, probs, cbs, labels)],
                     "caller": cb}
         if mode in ("run", "rand"):
-            sim = CircuitSimulator(qc)
+            sim = CircuitSimulator(qc) if shared is None else shared["sv"]
             if mode == "run":
                 # (an empty measure_results tuple is falsy: the code then draws outcomes at random)
                 with mock.patch("numpy.random.choice", FakeChoice(inp["orc"])):
@@ -324,7 +335,7 @@ def run_real(inp):
                 out["wrapper_state"] = _vec(st2)
             return out
         if mode == "dm":
-            sim = CircuitSimulator(qc, mode="density_matrix_simulator")
+            sim = CircuitSimulator(qc, mode="density_matrix_simulator") if shared is None else shared["dm"]
             res = sim.run(ket if inp["dm_from_ket"] else ket2dm(ket), cbits=cb)
             c = res.get_cbits(0) if hasattr(res, "cbits") else None
             return {"rho": [complex(x) for x in res.get_final_states(0).full().ravel()],
@@ -334,6 +345,110 @@ def run_real(inp):
         raise ValueError(mode)
     except Exception as e:  # any exception = rejected
         return {"rejected": True, "exc": type(e).__name__ + ": " + str(e)[:100]}
+
+
+def run_real(inp):
+    return call_real(inp)
+
+
+# --- histories: several calls on ONE CircuitSimulator object ---------------------------------------
+CALL_KEYS = ("ket", "cbits", "mode", "mres", "orc", "dm_from_ket")
+IN_KEYS = ("n", "ncb", "ops") + CALL_KEYS
+
+
+def sub_inputs(h):
+    """the calls of a history as ordinary single-call inputs (the model's answer does not depend on history)"""
+    out = []
+    for c in h["calls"]:
+        x = {"n": h["n"], "ncb": h["ncb"], "ops": h["ops"]}
+        for k in CALL_KEYS:
+            x[k] = c.get(k, {"mres": None, "orc": [], "dm_from_ket": True}.get(k))
+        out.append(x)
+    return out
+
+
+def run_history(h):
+    """real outputs of every call, all made on the SAME simulator objects (one per mode of operation)"""
+    from qutip_qip.circuit import CircuitSimulator
+    subs = sub_inputs(h)
+    try:
+        qc, _ = build(subs[0])
+        shared = {"sv": CircuitSimulator(qc), "dm": CircuitSimulator(qc, mode="density_matrix_simulator")}
+    except Exception as e:
+        return [{"rejected": True, "exc": type(e).__name__} for _ in subs]
+    return [call_real(x, qc=qc, shared=shared) for x in subs]
+
+
+def gen_history(rng, nmax=3):
+    """a circuit (preferably with impossible records) and 2-4 calls in mixed order with their own states/cbits"""
+    for _ in range(40):
+        base = gen_input(rng, mode="stats", nmax=nmax)
+        m = n_meas(base)
+        if m == 0:
+            continue
+        if rng.random() < 0.6:
+            # make some records impossible: a basis state and/or a repeated measurement of one qubit
+            base["ket"] = rand_ket(rng, base["n"], "basis") if rng.random() < 0.5 else base["ket"]
+            q = rng.randrange(base["n"])
+            st = lambda: (rng.randrange(base["ncb"]) if base["ncb"] and rng.random() < 0.8 else None)
+            extra = [{"m": q, "store": st()}, {"g": "X", "q": [q], "cc": None, "cv": None}, {"m": q, "store": st()}]
+            if rng.random() < 0.5:
+                del extra[1]
+            base["ops"] = (base["ops"] + extra) if rng.random() < 0.5 else (extra + base["ops"])
+            while n_meas(base) > 4:
+                for i, o in enumerate(base["ops"]):
+                    if "m" in o and o not in extra:
+                        del base["ops"][i]
+                        break
+                else:
+                    break
+        if n_meas(base) > 4:
+            continue
+        m = n_meas(base)
+        calls = []
+        ncalls = rng.randint(2, 4)
+        modes = [rng.choice(["stats", "run", "rand", "rand", "dm"]) for _ in range(ncalls)]
+        if "rand" not in modes[1:]:
+            modes[-1] = "rand"
+        if modes[0] == "rand" and rng.random() < 0.7:
+            modes[0] = rng.choice(["stats", "run"])
+        for md in modes:
+            c = {"mode": md, "mres": None, "orc": [], "dm_from_ket": rng.random() < 0.5}
+            c["ket"] = base["ket"] if rng.random() < 0.6 else rand_ket(rng, base["n"], rng.choice(["basis", "rand"]))
+            r = rng.random()
+            c["cbits"] = None if (r < 0.4 or base["ncb"] == 0) else [rng.randint(0, 1) for _ in range(base["ncb"])]
+            if md == "run":
+                c["mres"] = [rng.randint(0, 1) for _ in range(m)]
+            elif md == "rand":
+                c["orc"] = [rng.randint(0, 1) for _ in range(m)]
+            calls.append(c)
+        return {"n": base["n"], "ncb": base["ncb"], "ops": base["ops"], "calls": calls}
+    raise RuntimeError("gen_history")
+
+
+def samples_deterministic(top, k, runs=16):
+    """re-run the history `runs` times with the REAL random generator for call k (fresh objects each time);
+    -> (all outcomes identical, probability of that happening if the call sampled the branches)"""
+    subs = sub_inputs(top) if "calls" in top else [top]
+    outs = []
+    from qutip_qip.circuit import CircuitSimulator
+    for t in range(runs):
+        np.random.seed(1000 + t)
+        try:
+            qc, _ = build(subs[0])
+            shared = {"sv": CircuitSimulator(qc), "dm": CircuitSimulator(qc, mode="density_matrix_simulator")} if "calls" in top else None
+            for i, x in enumerate(subs):
+                if i < k:
+                    call_real(x, qc=qc, shared=shared)
+                elif i == k:
+                    _, ket = build(x)
+                    sim = shared["sv"] if shared else CircuitSimulator(qc)
+                    res = sim.run(ket, cbits=None if x["cbits"] is None else list(x["cbits"]))
+                    outs.append(json.dumps([str(_vec(res.get_final_states(0))), float(res.get_probabilities(0))]))
+        except Exception as e:
+            outs.append("exc:" + type(e).__name__)
+    ps = [b[1] for b in branches(subs[k])]
+    return len(set(outs)) == 1, sum(p ** runs for p in ps)
 
 
 # --------------------------------------------------------------------------------------------------
@@ -664,41 +779,89 @@ def exhaustive_inputs():
     return out
 
 
+def _clean(x):
+    if "calls" in x:
+        return {"n": x["n"], "ncb": x["ncb"], "ops": x["ops"],
+                "calls": [{k: c.get(k, {"mres": None, "orc": [], "dm_from_ket": True}.get(k)) for k in CALL_KEYS} for c in x["calls"]]}
+    return {k: x[k] for k in IN_KEYS}
+
+
+def check_call(top, k, inp, real, model, notes=None):
+    """compare one call with the model and with the property oracle.
+    -> list of ("dis"|"oracle", failure-input, observed, expected, what)"""
+    out = []
+    fin = _clean(top)
+    if "calls" in top:
+        fin["call"] = k
+    hist = " (call %d of a history on one simulator object)" % k if "calls" in top else ""
+    diff = same_output(inp, real, model)
+    unconsumed = inp["mode"] == "rand" and not real.get("rejected") and real.get("rand_calls") != n_meas(inp)
+    if diff and unconsumed:
+        # the code did not ask numpy.random.choice once per measurement: either it draws its randomness
+        # elsewhere (harmless) or it does not sample at all -- decide by looking at real samples
+        same, pr = samples_deterministic(top, k)
+        if same and pr < 1e-3:
+            out.append(("oracle", fin, "16 unconstrained runs all returned the same result; np.random.choice called %s times for %d measurements"
+                        % (real.get("rand_calls"), n_meas(inp)), "samples from the branch distribution %s" % [round(b[1], 4) for b in branches(inp)],
+                        "unconstrained run does not sample the branches" + hist))
+        elif notes is not None:
+            notes.append("np.random.choice patch not consumed as expected; random-mode tie skipped for one case")
+        diff = None
+    if diff:
+        out.append(("dis", fin, _show(real), _show(model), "Sim model vs circuitsimulator: " + diff + hist))
+    if well_formed(inp):
+        bad = oracle(inp, real)
+        if bad:
+            out.append(("oracle", fin, bad[1], bad[2], bad[0] + hist))
+    return out
+
+
 def correspond(ctx):
-    corr = Corr(rule="nontrivial = at least one measurement and (a second measurement or a classically controlled gate)")
+    corr = Corr(rule="nontrivial = at least one measurement and (a second measurement or a classically controlled gate); "
+                     "a history counts once per call")
     rng = ctx.rng
-    inputs = load_corpus()
-    ncorpus = len(inputs)
+    tops = load_corpus()
+    ncorpus = len(tops)
     for _ in range(ctx.n(420, 4000)):
-        inputs.append(gen_input(rng, nmax=4 if (ctx.thorough or rng.random() < 0.15) else 3, big=ctx.thorough))
-    mal = [gen_malformed(rng) for _ in range(ctx.n(60, 400))]
-    inputs += mal
+        tops.append(gen_input(rng, nmax=4 if (ctx.thorough or rng.random() < 0.15) else 3, big=ctx.thorough))
+    tops += [gen_malformed(rng) for _ in range(ctx.n(60, 400))]
+    tops += [gen_history(rng, nmax=4 if ctx.thorough else 3) for _ in range(ctx.n(140, 1200))]
     if ctx.thorough:
         ex = exhaustive_inputs()
         rng.shuffle(ex)
-        inputs += ex[:3000]
-    for x in inputs:
-        x.setdefault("orc", [])
-        x.setdefault("mres", None)
-        x.setdefault("dm_from_ket", True)
-    reals = [run_real(x) for x in inputs]
-    models = run_model_many(ctx.tier[0], inputs, alias=os.environ.get("VERIF_C02_ALIAS") == "1")
-    for i, (inp, real, model) in enumerate(zip(inputs, reals, models)):
+        tops += ex[:3000]
+    subs, owner = [], []
+    reals = []
+    for t, x in enumerate(tops):
+        if "calls" in x:
+            ss = sub_inputs(x)
+            rr = run_history(x)
+        else:
+            x.setdefault("orc", [])
+            x.setdefault("mres", None)
+            x.setdefault("dm_from_ket", True)
+            ss = [x]
+            rr = [run_real(x)]
+        for k, (a, b) in enumerate(zip(ss, rr)):
+            subs.append(a)
+            reals.append(b)
+            owner.append((t, k))
+    models = run_model_many(ctx.tier[0], subs, alias=os.environ.get("VERIF_C02_ALIAS") == "1")
+    for (t, k), inp, real, model in zip(owner, subs, reals, models):
+        top = tops[t]
         corr.tally("mode:" + inp["mode"])
-        corr.tally("corpus" if i < ncorpus else ("malformed:" + inp["kind"] if "kind" in inp else "valid"))
+        corr.tally("history-call" if "calls" in top else
+                   "corpus" if t < ncorpus else ("malformed:" + top["kind"] if "kind" in top else "valid"))
         corr.tally("rejected" if real.get("rejected") else "accepted")
-        if inp["mode"] == "rand" and not real.get("rejected") and real.get("rand_calls") != n_meas(inp):
-            ctx.notes.append("np.random.choice patch not consumed as expected; random-mode tie skipped for one case")
-            model = real
-        diff = same_output(inp, real, model)
-        clean = {k: inp[k] for k in ("n", "ncb", "ops", "ket", "cbits", "mode", "mres", "orc", "dm_from_ket")}
-        if diff:
-            corr.disagree(clean, _show(real), _show(model), "Sim model vs circuitsimulator: " + diff)
-        if well_formed(inp):
-            bad = oracle(inp, real)
-            if bad:
-                corr.oracle_fail(clean, bad[1], bad[2], bad[0])
-        corr.count(key_of(inp), nontrivial=nontrivial(inp) and not real.get("rejected"), sample=clean)
+        for kind, fin, obs, exp, what in check_call(top, k, inp, real, model, ctx.notes):
+            if kind == "dis":
+                corr.disagree(fin, obs, exp, what)
+            else:
+                corr.oracle_fail(fin, obs, exp, what)
+        corr.count(key_of(inp) + ("#%d" % k if "calls" in top else ""),
+                   nontrivial=nontrivial(inp) and not real.get("rejected"), sample=_clean(top))
+        if "calls" in top and k > 0 and inp["mode"] == "rand" and any(c["mode"] in ("stats", "run") for c in top["calls"][:k]):
+            corr.tally("history:unconstrained-after-prescribed")
         if inp["mode"] == "dm" and reads_written_bit(inp):
             corr.tally("dm:reads-written-bit")
         if any(o.get("cc") for o in inp["ops"] if "g" in o):
@@ -708,6 +871,8 @@ def correspond(ctx):
         st = [o["store"] for o in inp["ops"] if "m" in o and o["store"] is not None]
         if len(set(st)) < len(st):
             corr.tally("overwritten-bit")
+        if well_formed(inp) and n_meas(inp) and any(b[1] <= 1e-12 for b in branches(inp)):
+            corr.tally("has-impossible-record")
     return corr
 
 
@@ -715,20 +880,58 @@ def _show(out):
     return json.loads(json.dumps(out, default=str))
 
 
+def _failing_sub(inp):
+    """the single-call input a failure is about"""
+    if "calls" in inp:
+        return sub_inputs(inp)[inp.get("call", len(inp["calls"]) - 1)]
+    return inp
+
+
 def classify(failure):
     inp = failure.get("input") or {}
-    if inp.get("mode") == "dm" and reads_written_bit(inp) and "mixture" in (failure.get("what") or ""):
+    try:
+        sub = _failing_sub(inp)
+    except Exception:
+        return None
+    if sub.get("mode") == "dm" and reads_written_bit(sub) and "mixture" in (failure.get("what") or ""):
         return "dm-classical-control"
     return None
 
 
+def _oracle_top(top):
+    """property oracle on a single-call input or on every call of a history -> list of failures"""
+    out = []
+    if "calls" in top:
+        subs, reals = sub_inputs(top), run_history(top)
+    else:
+        top.setdefault("orc", [])
+        top.setdefault("mres", None)
+        top.setdefault("dm_from_ket", True)
+        subs, reals = [top], [run_real(top)]
+    for k, (inp, real) in enumerate(zip(subs, reals)):
+        if not well_formed(inp):
+            continue
+        fin = _clean(top)
+        if "calls" in top:
+            fin["call"] = k
+        bad = oracle(inp, real)
+        if bad:
+            out.append(dict(input=fin, observed=bad[1], expected=bad[2], what=bad[0]))
+        elif inp["mode"] == "rand" and not real.get("rejected") and real.get("rand_calls") != n_meas(inp):
+            same, pr = samples_deterministic(top, k)
+            if same and pr < 1e-3:
+                out.append(dict(input=fin, observed="16 unconstrained runs all returned the same result",
+                                expected="samples from the branch distribution", what="unconstrained run does not sample the branches"))
+    return out
+
+
 def replay(ctx, rec):
-    inp = dict(rec["input"])
-    inp.setdefault("orc", [])
-    inp.setdefault("mres", None)
-    inp.setdefault("dm_from_ket", True)
-    real = run_real(inp)
-    return oracle(inp, real) is not None
+    top = json.loads(json.dumps(rec["input"]))
+    want = top.pop("call", None) if "calls" in top else None
+    fails = _oracle_top(top)
+    if want is not None:
+        return any(f["input"].get("call") == want for f in fails) or bool(fails)
+    return bool(fails)
 
 
 def search(ctx, broken):
@@ -737,23 +940,19 @@ def search(ctx, broken):
     cands = load_corpus()
     for b in broken:
         if isinstance(b[1], dict) and "input" in b[1]:
-            cands.append(b[1]["input"])
+            c = json.loads(json.dumps(b[1]["input"]))
+            c.pop("call", None)
+            cands.append(c)
     cands += exhaustive_inputs()[:600]
-    for _ in range(600):
+    for _ in range(400):
         cands.append(gen_input(ctx.rng))
-    for inp in cands:
-        inp.setdefault("orc", [])
-        inp.setdefault("mres", None)
-        inp.setdefault("dm_from_ket", True)
-        if not well_formed(inp):
-            continue
-        real = run_real(inp)
-        bad = oracle(inp, real)
-        if bad:
-            f = dict(input={k: inp[k] for k in ("n", "ncb", "ops", "ket", "cbits", "mode", "mres", "orc", "dm_from_ket")},
-                     observed=bad[1], expected=bad[2], what=bad[0])
+    for _ in range(200):
+        cands.append(gen_history(ctx.rng))
+    for top in cands:
+        for f in _oracle_top(top):
             if classify(f) is None:
                 out.append(f)
-                if len(out) >= 3:
-                    break
+                break
+        if len(out) >= 3:
+            break
     return out
